@@ -1,7 +1,7 @@
 (* Run_C11.v — correspondence: evaluate Model_Locator on the histories the
    harness drove through common/txlocator (and service.TXIDManager /
    NewTimestampRange), report the indices where the observations differ. *)
-From Goloop Require Export lib.Bytes Model_Locator.
+From Goloop Require Export lib.Bytes Model_Locator Model_TxChain.
 Open Scope Z_scope.
 
 (* one cached list as observed: ts, th, live ids *)
@@ -14,9 +14,16 @@ Inductive ev :=
         (cn : list olist) (maxn : Z) (* normal cache, maxTSInDB *)
         (db : list N).              (* ids of the universe present in the bucket *)
 
+(* transition layer: an operation of Model_TxChain and the verdict of the real
+   validation (0 accepted, 1 DuplicateTx, 2 Expired, 3 Future), or a manager snapshot *)
+Inductive bev :=
+| BEv (o : bop) (verdict : N)
+| BSnap (locs : list N) (cp : list olist) (maxp : Z) (cn : list olist) (maxn : Z) (db : list N).
+
 Inductive case :=
 | CHist (evs : list ev)
-| CWin (bts th ts : Z) (cls : N).   (* NewTimestampRange(bts,th).CheckTx: 0 ok, 1 expired, 2 future *)
+| CWin (bts th ts : Z) (cls : N)    (* NewTimestampRange(bts,th).CheckTx: 0 ok, 1 expired, 2 future *)
+| CChain (evs : list bev).          (* real service transitions on a test node *)
 
 Definition subset (a b : list N) : bool := forallb (fun x => mem x b) a.
 Definition set_eqb (a b : list N) : bool := subset a b && subset b a.
@@ -54,10 +61,22 @@ Fixpoint check_evs (st : state) (evs : list ev) : bool :=
       snap_eqb (s_mgr st) locs cp maxp cn maxn db && check_evs st rest
   end.
 
+Fixpoint check_bevs (b : bstate) (evs : list bev) : bool :=
+  match evs with
+  | [] => true
+  | BEv o v :: rest =>
+      let '(b', v') := bstep b o in
+      N.eqb v v' && check_bevs b' rest
+  | BSnap locs cp maxp cn maxn db :: rest =>
+      snap_eqb (s_mgr (b_loc b)) locs cp maxp cn maxn db && check_bevs b rest
+  end.
+
 Definition check (c : case) : bool :=
   match c with
   | CHist evs => check_evs init evs
   | CWin bts th ts cls => N.eqb (range_check bts th ts) cls
+  | CChain evs => check_bevs binit evs
   end.
 
 Definition mismatches (l : list case) : list nat := failing check l.
+
